@@ -27,6 +27,7 @@ struct Op {
   std::string str() const {
     switch (kind) {
       case 'P': return "P:" + esc(text);
+      case 'Q': return "Q:" + esc(text);  // (C13) dissect + compose + free of a query text
       case 'R': case 'B': return std::string(1, kind) + ":" + std::to_string(i) + ":" + std::to_string(j) + ":" + std::to_string(arg);
       case 'N': return "N:" + std::to_string(i) + ":" + std::to_string(arg);
       case 'E': return "E:" + std::to_string(i) + ":" + std::to_string(j);
@@ -38,7 +39,7 @@ struct Op {
     if (s.empty()) return o;
     o.kind = s[0];
     std::string rest = s.size() > 2 ? s.substr(2) : "";
-    if (o.kind == 'P') { o.text = unesc8(rest); return o; }
+    if (o.kind == 'P' || o.kind == 'Q') { o.text = unesc8(rest); return o; }
     int v[3] = {0, 0, 0}, k = 0;
     size_t p = 0;
     while (k < 3 && p <= rest.size()) {
